@@ -7,6 +7,7 @@ func init() {
 		Assumptions: []string{"interval-set model validated by selfcheck"},
 		Units: []Unit{
 			{Name: "neighbours", Quick: 60000, Thorough: 3000000, Run: c15Neighbours},
+			{Name: "universe-scale", Quick: 16, Thorough: 400, Run: c15Universe},
 			{Name: "exhaustive-subsets", ExhaustiveN: func(string) int { return 256 * 3 }, RunIndexed: c15Exh},
 		},
 	})
